@@ -55,6 +55,7 @@ def run(tier, seed, replay=None):
         f = (lambda I, f0=f0, scale=scale: scale * f0(I)) if scale != 1.0 else f0
         eps = rng.choice([1e-10, 1e-8, 1e-6, 1e-4, 1e-3])
         start = None
+        torch.manual_seed(rng.randrange(1 << 30))          # (the start tensor comes from torch's generator: seeded from the run's stream)
         if rng.random() < 0.2: start = torchtt.randn(N, [1] + [rng.randint(1, 3)] * (d - 1) + [1], dtype=torch.float64)
         sd = rng.randrange(1 << 30); torch.manual_seed(sd)
         nform = ["list", "list", "tuple", "torch.Size"][i % 4]        # the shape as a list, a tuple or the .shape of a reference array (with and without a start tensor)
@@ -209,6 +210,7 @@ def run(tier, seed, replay=None):
         d = rng.choice([2, 3, 4])
         N = [rng.choice([2, 3, 4, 5]) for _ in range(d)]
         nargs = rng.choice([1, 1, 2])
+        torch.manual_seed(rng.randrange(1 << 30))
         xs = [torchtt.randn(N, [1] + [rng.randint(1, 3)] * (d - 1) + [1], dtype=torch.float64) for _ in range(nargs)]
         xs = [t / t.norm() * 3.0 + 2.0 * torchtt.ones(N, dtype=torch.float64) for t in xs]
         eps = rng.choice([1e-8, 1e-6, 1e-4, 1e-3])
